@@ -110,6 +110,11 @@ struct ReluctantFixedIterator<'a> {
     max: usize,
     started: bool,
     pos: usize,
+    // the iterator of the most recent repetition, kept when the term contains
+    // capturing groups: it may have other ways of matching the same span
+    // (alternatives capturing different groups)
+    alternatives: Option<Box<dyn Iterator<Item = usize> + 'a>>,
+    keep_alternatives: bool,
 }
 
 impl<'a> ReluctantFixedIterator<'a> {
@@ -129,6 +134,9 @@ impl<'a> ReluctantFixedIterator<'a> {
             max,
             started: false,
             pos: position,
+            alternatives: None,
+            keep_alternatives: matches!(op, Operation::Capture(_))
+                || op.contains_capturing_expressions(),
         }
     }
 }
@@ -149,11 +157,23 @@ impl Iterator for ReluctantFixedIterator<'_> {
                 if let Some(next) = it.next() {
                     self.count += 1;
                     self.pos = next;
+                    if self.keep_alternatives {
+                        self.alternatives = Some(it);
+                    }
                 } else {
                     return None;
                 }
             }
             return Some(self.pos);
+        }
+
+        // before another repetition is added, offer the other ways in which
+        // the last one can match the same span
+        if let Some(alternatives) = self.alternatives.as_mut() {
+            if alternatives.next().is_some() {
+                return Some(self.pos);
+            }
+            self.alternatives = None;
         }
 
         if self.count < self.max {
@@ -167,6 +187,9 @@ impl Iterator for ReluctantFixedIterator<'_> {
                 }
                 self.pos = next;
                 self.count += 1;
+                if self.keep_alternatives {
+                    self.alternatives = Some(it);
+                }
                 return Some(self.pos);
             }
         }
